@@ -99,6 +99,66 @@ pub open spec fn f2<C: ServerContext>(h: ApiEndpoint<C>, v: ApiEndpointVersions)
     known_exception(h.versions, v)
 }
 
+// ---- what a successful insert does to the trie (structural), and what that means for lookups (C01, C02 converse) ----
+
+/// the parts of a (possibly absent) node that matter: an absent node behaves like an empty one
+pub open spec fn edges_of<C: ServerContext>(o: Option<HttpRouterNode<C>>) -> Option<HttpRouterEdges<C>> {
+    match o { Some(n) => n.edges, None => None }
+}
+pub open spec fn hs_of<C: ServerContext>(o: Option<HttpRouterNode<C>>, k: String) -> Seq<ApiEndpoint<C>> {
+    match o { Some(n) => handlers_for(n, k), None => Seq::empty() }
+}
+pub open spec fn lit_child<C: ServerContext>(o: Option<HttpRouterNode<C>>, l: String) -> Option<HttpRouterNode<C>> {
+    match edges_of(o) { Some(HttpRouterEdges::Literals(m)) => if m@.contains_key(l) { Some(*m@[l]) } else { None }, _ => None }
+}
+pub open spec fn var_child<C: ServerContext>(o: Option<HttpRouterNode<C>>) -> Option<HttpRouterNode<C>> {
+    match edges_of(o) { Some(HttpRouterEdges::VariableSingle(_, c)) => Some(*c), _ => None }
+}
+pub open spec fn rest_child<C: ServerContext>(o: Option<HttpRouterNode<C>>) -> Option<HttpRouterNode<C>> {
+    match edges_of(o) { Some(HttpRouterEdges::VariableRest(_, c)) => Some(*c), _ => None }
+}
+
+/// `n1` is what the (sub)trie `o` becomes when endpoint `e` is registered under method name `mk` with the remaining
+/// path template `tm`: nothing changes except along the template's path, where missing nodes are created, and at
+/// its end, where `e` is appended to the endpoints of `mk`.
+pub open spec fn ins_rel<C: ServerContext>(o: Option<HttpRouterNode<C>>, tm: Seq<Seq<char>>, n1: HttpRouterNode<C>, e: ApiEndpoint<C>, mk: String) -> bool
+    decreases tm.len()
+{
+    if tm.len() == 0 {
+        &&& n1.edges == edges_of(o)
+        &&& forall|k: String| #[trigger] handlers_for(n1, k) == (if k == mk { hs_of(o, k).push(e) } else { hs_of(o, k) })
+    } else {
+        &&& forall|k: String| #[trigger] handlers_for(n1, k) == hs_of(o, k)
+        &&& match seg_of(tm[0]) {
+            PathSegment::Literal(l) => {
+                &&& n1.edges matches Some(HttpRouterEdges::Literals(m1))
+                &&& m1@.contains_key(l)
+                &&& forall|k: String| k != l ==> (#[trigger] m1@.contains_key(k) == (lit_child(o, k) is Some))
+                &&& forall|k: String| k != l && #[trigger] m1@.contains_key(k) ==> Some(*m1@[k]) == lit_child(o, k)
+                &&& ins_rel(lit_child(o, l), tm.skip(1), *m1@[l], e, mk)
+            },
+            PathSegment::VarnameSegment(v) => {
+                &&& n1.edges matches Some(HttpRouterEdges::VariableSingle(w, c1))
+                &&& w == v
+                &&& ins_rel(var_child(o), tm.skip(1), *c1, e, mk)
+            },
+            PathSegment::VarnameWildcard(v) => {
+                &&& n1.edges matches Some(HttpRouterEdges::VariableRest(w, c1))
+                &&& w == v
+                &&& ins_rel(rest_child(o), Seq::empty(), *c1, e, mk)
+            },
+        }
+    }
+}
+/// a freshly created node is as good as an absent one
+pub proof fn ins_rel_fresh<C: ServerContext>(n: HttpRouterNode<C>, tm: Seq<Seq<char>>, n1: HttpRouterNode<C>, e: ApiEndpoint<C>, mk: String)
+    requires fresh_node(n)
+    ensures ins_rel(Some(n), tm, n1, e, mk) == ins_rel(None, tm, n1, e, mk) // @a_fresh_node_is_as_good_as_none
+{
+    assert(forall|k: String| hs_of(Some(n), k) == hs_of::<C>(None, k));
+    assert(forall|k: String| lit_child(Some(n), k) == lit_child::<C>(None, k));
+}
+
 /// an endpoint already registered for the same path and method stands in the way of `ver`
 pub open spec fn blocks<C: ServerContext>(h: ApiEndpoint<C>, ver: ApiEndpointVersions) -> bool {
     version_conflict(h, ver) || f2(h, ver)
